@@ -109,13 +109,17 @@ package main
 //@   ghost n int = 0
 //@   ghost interrupted bool = false
 //@   ghost d ref = 0
+//@   ghost libenc ref = 0
 //@   at call decoder: ghost d = ref(result0)
 //@   at recv sigch: ghost interrupted = true
+//@   at call NewCSVEncoder: ghost libenc = ref(result)
+//@   at call NewEncoder: ghost libenc = ref(result)
+//@   at call NewJSONEncoder: ghost libenc = ref(result)
 //@   at call Decode: assert [each-record-once-in-order] result == nil ==> rec(arg1) == ditem(d, n)
-//@   at call Encode: assert [encodes-the-record-just-decoded] rec(arg1) == ditem(d, n) ; ghost n = n + 1
+//@   at call Encode: assert [encodes-the-record-just-decoded] rec(arg1) == ditem(d, n) ; assert [with-the-library-encoder-of-the-chosen-format-itself] ref(arg0) == libenc ; ghost n = n + 1
 //@   ensures [all-records-encoded-unless-interrupted] err == nil && !interrupted && d != 0 ==> n == dlen(d)
 //@   loop 1
-//@     invariant d != 0 && d == ref(dec) && 0 <= n && n == dpos(d) && n <= dlen(d) && !interrupted
+//@     invariant d != 0 && d == ref(dec) && 0 <= n && n == dpos(d) && n <= dlen(d) && !interrupted && ref(enc) == libenc
 
 //@ func clearScreen
 //@   trusted
